@@ -198,6 +198,11 @@ def run(ctx):
                   ("frag-3SGB-E0+40", C.fragment("3SGB", "E", 0, 40)),
                   # a chain whose first residue shares its number with the insertion-coded residues that follow it
                   ("frag-3SGB-E-from-48", C.join(C.chain_lines("3SGB", "E", 19, 16) + [C.TER]))]
+    # the same fragment lying across the planes where a coordinate needs all eight columns of its field (x = -100, y = 1000)
+    fl = C.body(C.fragment("3SGB", "E", 0, 40))
+    cx, cy, cz = C.centroid(fl)
+    structures.append(("frag-3SGB-E0+40 across x=-100", C.join(C.translate(fl, -100000 - cx, 0, 0))))
+    structures.append(("frag-3SGB-E0+40 across y=+1000 z=-100", C.join(C.translate(fl, 0, 1000000 - cy, -100000 - cz))))
     # the program's own hydrogens written back under the old naming convention (HD21 -> 1HD2, HH12 -> 2HH1 ...) and NOT
     # kept: they are input hydrogens like any others, dropped when reading, and every complement is built afresh
     from . import c07 as _c07
@@ -261,8 +266,8 @@ def run(ctx):
         ctx.extra.setdefault("protonation_warnings", {})[name] = len(bad_warn)
         # equivariance under lattice rotations (amino-acid structures: a terminal sp3 atom of a hetero group gets a
         # frame-dependent rotamer by design - the exclusion C04's statement spells out)
-        if any(ln.startswith("HETATM") for ln in text.splitlines()) or "old-style-hydrogens" in name:
-            continue
+        if any(ln.startswith("HETATM") for ln in text.splitlines()) or "old-style-hydrogens" in name or " across " in name:
+            continue        # (a rotated copy of a structure at the edge of the coordinate field does not fit the field: C04)
         for (p, s) in (allrots if ctx.thorough() else rng.sample(allrots, 3)):
             t = c04.translation_for(text, p, s, ("unit", "halfcell", "zero"))
             mt = c04.move_text(text, p, s, t)
